@@ -372,6 +372,7 @@ func TestC09(t *testing.T) {
 	Col.Property = "C09"
 	ReplayRegress(t, "C09")
 	runHostile(t, "C09", "c09", oracleC09)
+	t.Run("scaling", c09Scaling)
 }
 
 func TestC10(t *testing.T) {
